@@ -14,7 +14,8 @@ Query == {"source", "ast", "severity", "findings", "imports", "calls", "flags", 
           \* decompiling / tracing the way the command line does for a member of a stack (own variable numbering and
           \* result name): a read-only query like the others
           "source_cli", "trace_cli"}
-Where == {"reparse", "fresh1", "fresh2"}      \* switch to a re-parsed copy / a fresh process
+Where == {"reparse", "fresh1", "fresh2"}      \* switch to a re-parsed copy (the harness rotates: from the byte string, from a
+                                              \* stream behind other bytes, as the second member of a stack) / a fresh process
 Step  == Query \cup Where
 
 VARIABLES hist
